@@ -64,14 +64,14 @@ def run(ctx):
         os.remove(p)
         ctx.cov["deviation_classes_reachable_in_model"] = True
     simcfg = q("c04_sim_quick.cfg", "c04_sim_thorough.cfg")
-    beh = ctx.tlc_behaviours("JournalIndex.tla", simcfg, num=q(48, 300), depth=q(60, 80), timeout=q(900, 3000))
-    beh = [b for b in beh if any(s.get("a") == "IdxFaults" for s in b)][:q(30, 100)]
+    beh = ctx.tlc_behaviours("JournalIndex.tla", simcfg, num=q(48, 160), depth=q(60, 80), timeout=q(900, 3000))
+    beh = [b for b in beh if any(s.get("a") == "IdxFaults" for s in b)][:q(30, 60)]
     if not beh:
         raise vlib.Inconclusive("no behaviour with an index fault table")
     amp = q({"crash": "none", "damage": "none"}, {"crash": "none", "damage": "none", "idxRandom": 20, "idxFlips": 40})
     cases = bc.make_cases(ctx, beh, simcfg, amp)
     if ctx.tier == "thorough":
-        for c in cases[:15]:     # every truncation byte of the index for a subset of the histories
+        for c in cases[:8]:     # every truncation byte of the index for a subset of the histories
             c["amp"] = dict(amp, idx="all")
 
     def corrupt(c):
@@ -85,7 +85,7 @@ def run(ctx):
         return c
     good = next((c for c in cases if any(s.get("a") == "IdxFaults" and "ok" in s["ideal"]["rw"]["reads"] for s in c["steps"])), cases[0])
     ctx.binding_selftest(binary, good, corrupt, test_run=bc.TEST)
-    res = ctx.run_engine(binary, [], cases, test_run=bc.TEST, shards=q(8, 12), timeout=q(1500, 6000))
+    res = ctx.run_engine(binary, [], cases, test_run=bc.TEST, shards=4, timeout=q(1500, 6000))
     stats = bc.classify(ctx, "C04", binary, cases, res, critical)
     ctx.cov["engine_stats"] = stats
     if stats.get("idx_fault_opens", 0) == 0 or stats.get("idx_fault_tables", 0) == 0:
